@@ -9,6 +9,8 @@ cd $W || exit 2
 git diff -- . ':!*_test.go' > $S/patch.diff
 DEMOS=$(git status --short | grep '^??' | awk '{print $2}')
 for f in $DEMOS; do mkdir -p $S/demo/$(dirname $f); cp -r $f $S/demo/$f; done
+# the repository's suite is not safe to run several times at once (node/pegnet tests share a database name): serialise
+exec 9>/tmp/seedsuite.lock; flock 9
 echo "== build"; go build ./... 2>&1 | grep -v 'sqlite3\|pNew\|standin\|\^~\|declared' ; B=${PIPESTATUS[0]}
 echo "== suite with change (demo excluded)"
 mkdir -p /tmp/seedtmp.$$; for f in $DEMOS; do mkdir -p /tmp/seedtmp.$$/$(dirname $f); mv $f /tmp/seedtmp.$$/$f; done
@@ -35,6 +37,7 @@ go test -vet=off -count=1 -run "$RUN" $PKG > $S/demo_without_change.txt 2>&1; DO
 tail -2 $S/demo_without_change.txt
 git apply /tmp/seedpatch.$$; rm -f /tmp/seedpatch.$$
 echo "suite_fail_lines=$SUITE demo_with=$DW demo_without=$DO"
+flock -u 9
 echo "== my check against the change"
 # the check runs from a private copy of /verif, so that evidence/ and replays/ of /verif itself are never touched
 V=/tmp/vs.$$; rm -rf $V; mkdir -p $V
